@@ -15,6 +15,7 @@ LEAN_TARGETS = ["PV.Props.C04"]
 EXTRA_PROPS = ['PV.Props.C04Conv']
 # T-C tie (DESIGN 2.3): kernels traced from the current source are proved equal to the model over the reals
 EQUIV = {'PV.Equiv.Astro': ['gmst_eq', 'observer_position_eq'], 'PV.Equiv.Look': ['latLoop_succ', 'lonLatAlt_first_pass', 'lonlatalt_method_p1', 'lonlatalt_method_p1_c1', 'lonlatalt_method_p2', 'lonlatalt_method_p2_c1', 'lonlatalt_method_p2_c2', 'lonlatalt_geoloc_p1', 'lonlatalt_geoloc_p1_c1', 'lonlatalt_geoloc_p2', 'lonlatalt_geoloc_p2_c2']}
+EQUIV.update({'PV.Equiv.TranslatedTime': ['utc2local_eq']})      # T-D
 RULE = ("(TLE, time) pairs from the repo's test TLEs and the near-earth generator, times within 2 days of epoch, scalar and "
         "array; observers over the globe incl. poles, the date line and altitudes 0-40000 km; correspondence: lon/lat/alt "
         "and the iteration count (model vs Orbital.get_lonlatalt and geoloc.get_lonlatalt), observer position/velocity at "
